@@ -598,6 +598,30 @@ pub fn family(name: &str, tier: Tier) -> Vec<Scenario> {
         "F2" => {
             let l = tier.pick(2, 3);
             let ws = words(3, l);
+            // one file that repeats a run of its own pending chunks (ab..ab) next to a file that contains the run's
+            // second chunk and fills a xorb around it (K1: three chunks per xorb), in every interleaving: the session
+            // shard can learn `b` between the first file's two `ab`s
+            for (w1, w2) in [(vec![0u8, 1, 0, 1], vec![2u8, 3, 1, 4]), (vec![0u8, 1, 2, 0, 1], vec![3u8, 1, 4, 5])] {
+                let f1 = FileSpec::new(&w1, 0, Feed::PerAtom);
+                let f2 = FileSpec::new(&w2, 0, Feed::PerAtom);
+                for ord in interleavings(w1.len() + 1, w2.len() + 1) {
+                    v.push(Scenario {
+                        family: "F2".into(),
+                        sessions: vec![SessionSpec { files: vec![f1.clone(), f2.clone()], order: ord, salt: 0, foreign: false, foreign_no_cache: false }],
+                    });
+                }
+            }
+            // the same pair with the first file fed in two halves (ab | ab): its second block repeats a run of two
+            for (w1, w2) in [(vec![0u8, 1, 0, 1], vec![2u8, 3, 1, 4])] {
+                let f1 = FileSpec::new(&w1, 0, Feed::Cut(usize::MAX - 1));
+                let f2 = FileSpec::new(&w2, 0, Feed::PerAtom);
+                for ord in interleavings(3, w2.len() + 1) {
+                    v.push(Scenario {
+                        family: "F2".into(),
+                        sessions: vec![SessionSpec { files: vec![f1.clone(), f2.clone()], order: ord, salt: 0, foreign: false, foreign_no_cache: false }],
+                    });
+                }
+            }
             for w1 in &ws {
                 for w2 in &ws {
                     let f1 = FileSpec::new(w1, 0, Feed::PerAtom);
